@@ -12,6 +12,11 @@ CHECKS = {
          "is explored with |field| <= 10**12 symbolic integers; z3 proves totals/ranges/algebraic laws on each path; cells whose tree is not exhausted are reported inconclusive.",
          "Trusted: CrossHair's int/tuple models (cross-checked by native replay of one witness per path), the float(k)->exact-integer stub for d*k "
          "(exact for products < 2**53); float fields and normalized() rounding are outside.", "§5 C16", "chx"),
+ "C19": ("AST->SMT (QF_BV, floor-division exact, no-overflow side obligations) translation of easter() re-read from /repo each run; unsat of each negated obligation over the whole documented year range, z3 5.1 + z3 4.8.12 (+cvc5 and a 64-bit re-encoding in thorough)",
+         "proof",
+         "Solver-discharged obligations over the complete documented domain (1583..4099 western/orthodox, 326..9999 Julian, every method value): equality with Meeus/Jones/Butcher resp. Meeus' Julian algorithm, "
+         "Julian->Gregorian shift, Sunday, 22 Mar..25 Apr window, ValueError for bad methods, valid date() arguments. The bound is the property's own domain, so within it the claim is exhaustive.",
+         "Trusted: z3/cvc5, the ~300-line AST translator (validated every run against the real function on the repo's test vectors and seeded years; rejects unknown AST nodes), the reference algorithms in harness/c19_oracle.py.", "§5 C19", "astbv"),
 }
 NA = {}
 
